@@ -83,6 +83,37 @@ def run_real(ctx):
     ctx.coverage["c09_real_controllers"] = {k: {"runs": v[0], "stalled": v[1]} for k, v in seen.items()}
 
 
+def run_restarts(ctx):
+    """C07: the process dies and comes back - the REAL controllers are restarted over the re-opened stores with a
+    transaction pending / applied / whose proposal was created and never looked at; what was accepted completes, nothing
+    is done twice.  A stalled run is a violation of the calling property (signature c07_<scenario>)."""
+    exe, log = ctx.build_harness("c09")
+    if exe is None:
+        raise vlib.CheckError("c09 harness build failed:\n" + log[-3000:])
+    n = "3" if ctx.tier == "thorough" else "1"
+    seen = {}
+    for scen in ("restart_pending", "restart_applied", "restart_proposal_created"):
+        rc, so, se = vlib.sh2([exe, "-seed", str(ctx.seed), "-n", n, "-quiet", "500", "-only", scen], timeout=600)
+        if rc != 0:
+            raise vlib.CheckError("c09 harness (%s) failed rc=%s\n%s" % (scen, rc, se[-2000:]))
+        for ln in so.split("\n"):
+            f = ln.split("\t")
+            if len(f) < 10 or f[0] != "c09.scen" or f[2] != scen:
+                continue
+            kv = dict(x.split("=", 1) for x in f[3:9])
+            seen.setdefault(scen, [0, 0])
+            seen[scen][0] += 1
+            if kv.get("stalled") == "1":
+                seen[scen][1] += 1
+                _excuse(ctx, "c07_" + scen,
+                        "real controllers restarted over the re-opened stores, scenario %s: stores quiet, enabled=%s nonfinal=%s connected=%s "
+                        "after one pass of direct reconciles: %s" % (scen, kv.get("enabled"), kv.get("nonfinal"), kv.get("connected"), kv.get("afterprod")),
+                        {"line": ln[:3000], "how": "harness/cmd/c09 -seed %s -only %s" % (ctx.seed, scen)})
+        if scen not in seen:
+            ctx.violation("c09 harness produced no line for scenario " + scen, {"stdout": so[-2000:]}, no_input=True)
+    ctx.coverage["restarts_on_real_controllers"] = {k: {"runs": v[0], "stalled": v[1]} for k, v in seen.items()}
+
+
 def run_extra(ctx):
     run_model_search(ctx)
     run_real(ctx)
